@@ -42,7 +42,9 @@ class Rig:
             else:
                 from rv.fakes.amqp_server import FakeAMQP
 
-                self.server = FakeAMQP(**(amqp_opts or {}))
+                opts = {"deliver_before_confirm": "random", "rnd": random.Random(seed + 17)}
+                opts.update(amqp_opts or {})
+                self.server = FakeAMQP(**opts)
         # bucket server for redis bucket brokers (used by any kind on request)
         self._bucket_server = None
 
